@@ -193,8 +193,10 @@ func (enc *Encoder) Flush() (err error) {
 		return enc.Error
 	}
 	if enc.Writer != nil && enc.off < len(enc.buf) {
-		_, err = enc.Writer.Write(enc.buf[enc.off:])
-		enc.off = len(enc.buf)
+		var n int
+		n, err = enc.Writer.Write(enc.buf[enc.off:])
+		// what the writer did not take is still to be written
+		enc.off += n
 	}
 	return
 }
